@@ -115,7 +115,45 @@ def run(prog, rep, tier='quick'):
             if not (isinstance(col, ast.Name) and col.id == tv):
                 bad.append('the noise vector is V[.., %s], not column %s' % (normalise(col) if col is not None else '?', tv))
     if bad:
-        rep.violation('accumulation', f.qname, 'noise-subspace loop', '; '.join(bad), where)
+        # not written as `for I in range(NSIG, P): ... V[:, I] ... S[I]`: decide from the values instead -- which singular
+        # vectors / singular values are read, and over which index range
+        Pv_ = C.symint('P', 3, 'order')
+        Ns_ = C.symint('NSIG', 1)
+        vbad = []
+        nreads = 0
+        for method in ('music', 'ev'):
+            v_, itp_ = C.run_function(prog, 'eigenfre', 'eigen', [X(), Pv_], {'NSIG': Ns_, 'method': Const(method), 'NFFT': nf()})
+            reads = [e for e in itp_.events if e[0] == 'svd-read' and e[4] == f.qname]
+            syms = set()
+            for e in reads:
+                idx = [a for a in e[2] if a is not None]
+                if e[1] == 'svd-Vh':
+                    # V = Vh^T (tr flag): the vector index is the column of V / the row of Vh
+                    pos = 1 if e[3] else 0
+                    ia = e[2][pos] if len(e[2]) > pos else None
+                else:
+                    ia = e[2][0] if e[2] else None
+                nreads += 1
+                if ia is None:
+                    vbad.append('%s read with an index the analysis cannot follow' % e[1])
+                    continue
+                ls = [s_ for s_ in ia.t if s_ in Aff.BOUNDS]
+                if len(ls) != 1 or ia != Aff.sym(ls[0]):
+                    vbad.append('%s is read at index %s' % (e[1], ia))
+                    continue
+                lo_, hi_ = Aff.BOUNDS[ls[0]]
+                if not (lo_ == Ns_.a and hi_ == Pv_.a):
+                    vbad.append('%s is read over the index range [%s, %s), not [NSIG, P)' % (e[1], lo_, hi_))
+                syms.add(ls[0])
+            if method == 'ev' and not any(e[1] == 'singular' for e in reads):
+                vbad.append('the EV branch does not read the singular values')
+            if len(syms) > 1:
+                vbad.append('singular vectors and singular values are indexed by different loop variables')
+        if vbad or not nreads:
+            rep.violation('accumulation', f.qname, 'noise-subspace loop', '; '.join(sorted(set(vbad)) or bad), where)
+        else:
+            rep.proved('accumulation', f.qname, 'noise-subspace loop', 'singular vectors and values are read with one index running over '
+                       '[NSIG, P) (%d reads examined)' % nreads, where)
     else:
         rep.proved('accumulation', f.qname, 'noise-subspace loop', 'I = NSIG..P-1; V[:, I], S[I]', where)
     # data matrix: which sample sits where (affine block maps)
